@@ -41,6 +41,13 @@ MIG = "    #[sv::msg(migrate)]\n    fn migrate(&self, _ctx: MigrateCtx) -> StdRe
 case("two_migrate", "two methods marked migrate",
      contract(NEW + INST + MIG.replace("{ Ok(Response::new()) }", "{ Ok(Response::new()) }" + E) + "    #[sv::msg(migrate)]\n    fn migrate_again(&self, _ctx: MigrateCtx) -> StdResult<Response> { Ok(Response::new()) }\n"),
      contract(NEW + INST + MIG + "    #[sv::msg(sudo)]\n    fn migrate_again(&self, _ctx: SudoCtx) -> StdResult<Response> { Ok(Response::new()) }\n"))
+INST3 = "    #[sv::msg(instantiate)]\n    fn instantiate_third(&self, _ctx: InstantiateCtx) -> StdResult<Response> { Ok(Response::new()) }\n"
+case("three_instantiate", "three methods marked instantiate",
+     contract(NEW + INST.replace("{ Ok(Response::new()) }", "{ Ok(Response::new()) }" + E) + "    #[sv::msg(instantiate)]\n    fn instantiate_again(&self, _ctx: InstantiateCtx) -> StdResult<Response> { Ok(Response::new()) }\n" + INST3),
+     contract(NEW + INST + "    #[sv::msg(exec)]\n    fn instantiate_again(&self, _ctx: ExecCtx) -> StdResult<Response> { Ok(Response::new()) }\n" + INST3.replace("sv::msg(instantiate)", "sv::msg(exec)").replace("InstantiateCtx", "ExecCtx")))
+case("three_migrate", "three methods marked migrate (identical signatures)",
+     contract(NEW + INST + MIG.replace("{ Ok(Response::new()) }", "{ Ok(Response::new()) }" + E) + MIG.replace("fn migrate(", "fn migrate_again(") + MIG.replace("fn migrate(", "fn migrate_third(")),
+     contract(NEW + INST + MIG + MIG.replace("fn migrate(", "fn migrate_again(").replace("sv::msg(migrate)", "sv::msg(sudo)").replace("MigrateCtx", "SudoCtx") + MIG.replace("fn migrate(", "fn migrate_third(").replace("sv::msg(migrate)", "sv::msg(sudo)").replace("MigrateCtx", "SudoCtx")))
 case("entry_points_no_instantiate", "entry_points on a contract without an instantiate handler",
      contract(NEW + "    #[sv::msg(exec)]\n    fn run(&self, _ctx: ExecCtx) -> StdResult<Response> { Ok(Response::new()) }\n", pre="#[entry_points]" + E + "\n#[contract]"),
      contract(NEW + INST + "    #[sv::msg(exec)]\n    fn run(&self, _ctx: ExecCtx) -> StdResult<Response> { Ok(Response::new()) }\n", pre="#[entry_points]\n#[contract]"))
@@ -133,6 +140,18 @@ case("messages_trailing_tokens", "unexpected tokens in sv::messages",
 case("messages_bad_custom", "unknown member in sv::messages(..: custom(..))",
      IFACE_OK + "impl api::Api1 for Contract { type Error = StdError; fn run(&self, _c: ExecCtx, _a: u32) -> StdResult<Response> { Ok(Response::new()) } }\n" + contract(NEW + INST, attrs="#[sv::messages(api as Api1: custom(message))]" + E + "\n"),
      IFACE_OK + "impl api::Api1 for Contract { type Error = StdError; fn run(&self, _c: ExecCtx, _a: u32) -> StdResult<Response> { Ok(Response::new()) } }\n" + contract(NEW + INST, attrs="#[sv::messages(api as Api1)]\n"))
+
+# ---- query response types that are not type paths (unit, tuple, array, reference): rejected with a located diagnostic (D23)
+def nonpath_query(name, what, ty, val):
+    case(name, what,
+         contract(NEW + INST + f"    #[sv::msg(query)]\n    fn ask(&self, _ctx: QueryCtx) -> StdResult<{ty}> {{ Ok({val}) }}" + E + "\n"),
+         contract(NEW + INST + "    #[sv::msg(query)]\n    fn ask(&self, _ctx: QueryCtx) -> StdResult<Resp> { Ok(Resp {}) }\n"))
+
+
+nonpath_query("query_returns_unit", "query handler returning StdResult<()>", "()", "()")
+nonpath_query("query_returns_tuple", "query handler returning a tuple", "(u32, String)", "(1, String::new())")
+nonpath_query("query_returns_array", "query handler returning an array", "[u8; 4]", "[0u8; 4]")
+nonpath_query("query_returns_reference", "query handler returning a reference", "&'static str", '""')
 
 # ---- replies
 R = "#[sv::features(replies)]\n"
